@@ -119,6 +119,27 @@ def run(chk):
             if rnd.random() < 0.3:
                 kw['tag'] = True
             sizekw = None
+        elif tid % 41 == 15:
+            # the same characters in the same order, only the lengths of the runs differ; a repeated character right before a change
+            # of class (letter / digit / case)
+            a_, b_ = rnd.sample('abcxyz', 2)
+            tail = rnd.choice(['1', '22', 'Q', b_.upper()])
+            ex = sorted({a_ * n_ + tail for n_ in rnd.sample([2, 3, 4, 5], rnd.randint(2, 3))})
+            if rnd.random() < 0.4:
+                ex = [b_ + e_ for e_ in ex]
+            kw = {'dialect': rnd.choice(rx.DIALECTS)}
+            if rnd.random() < 0.3:
+                kw['tag'] = True
+            sizekw = None
+        elif tid % 41 == 17:
+            # extra letters that every example contains, next to letters outside ASCII
+            xl = rnd.choice(['.', '-', '.-', '_.'])
+            words_ = ['\u00e9t\u00e9', '\u00e0b', '\u00f1and\u00fa', 'gr\u00fc\u00df', '\u4e2d\u6587', 'na\u00efve']
+            ex = ['%s%s%s%d' % (w_, rnd.choice(xl), rnd.choice('xyz'), rnd.randint(1, 99)) for w_ in rnd.sample(words_, rnd.randint(2, 4))]
+            kw = {'dialect': rnd.choice(rx.DIALECTS), 'extra_letters': xl}
+            if rnd.random() < 0.3:
+                kw['tag'] = True
+            sizekw = None
         elif tid % 41 == 7:
             # two shapes that share a constant at the same place from the left; the shorter shape ends there
             sep = rnd.choice([':', '-', '/', '='])
